@@ -196,6 +196,34 @@ LinAt(sh, lab, p) ==
             IN <<cls, r[2]>>
 LinClass(sh, lab) == LinAt(sh, lab, 1)[1]
 
+(* linearity in PARAMETER ATOMS (C04): an atom is a maximal x-free sub-tree that contains a parameter (e.g. inv(a0), a0*a1);
+   the tree is "lin" here if it is affine in the values of its atoms.  Returns [cls, xfree, nxt, roots] with roots the set of
+   positions at which atoms start. *)
+RECURSIVE AtomAt(_, _, _)
+AtomAt(sh, lab, p) ==
+  IF sh[p] = 0
+  THEN [cls |-> IF IsParam(lab[p]) THEN "atom" ELSE "const", xfree |-> lab[p] # "x", nxt |-> p + 1, roots |-> IF IsParam(lab[p]) THEN {p} ELSE {}]
+  ELSE IF sh[p] = 1
+       THEN LET c == AtomAt(sh, lab, p + 1) IN
+            IF c.xfree THEN [cls |-> c.cls, xfree |-> TRUE, nxt |-> c.nxt, roots |-> IF c.cls = "atom" THEN {p} ELSE {}]
+            ELSE [cls |-> IF c.cls = "const" THEN "const" ELSE "non", xfree |-> FALSE, nxt |-> c.nxt, roots |-> c.roots]
+       ELSE LET l == AtomAt(sh, lab, p + 1)
+                r == AtomAt(sh, lab, l.nxt)
+            IN IF l.xfree /\ r.xfree
+               THEN LET a == l.cls = "atom" \/ r.cls = "atom" IN
+                    [cls |-> IF a THEN "atom" ELSE "const", xfree |-> TRUE, nxt |-> r.nxt, roots |-> IF a THEN {p} ELSE {}]
+               ELSE LET L == IF l.cls = "atom" THEN "lin" ELSE l.cls
+                        R == IF r.cls = "atom" THEN "lin" ELSE r.cls
+                        cls == IF L = "non" \/ R = "non" THEN "non"
+                               ELSE IF L = "const" /\ R = "const" THEN "const"
+                               ELSE IF lab[p] \in {"+", "-"} THEN "lin"
+                               ELSE IF lab[p] = "*" THEN (IF L = "const" \/ R = "const" THEN "lin" ELSE "non")
+                               ELSE IF lab[p] = "/" THEN (IF R = "const" THEN "lin" ELSE "non")
+                               ELSE "non"
+                    IN [cls |-> cls, xfree |-> FALSE, nxt |-> r.nxt, roots |-> l.roots \cup r.roots]
+AtomLin(sh, lab) == LET a == AtomAt(sh, lab, 1) IN
+                      [cls |-> IF a.cls = "atom" THEN "lin" ELSE a.cls, roots |-> a.roots]
+
 (* --- invariants (C01) --- *)
 ParamsInOrder ==   \* parameters are a0..a(k-1) in order of first appearance
   Renumber => \A k \in 1..Len(labels) : IsParam(labels[k]) =>
@@ -203,10 +231,11 @@ ParamsInOrder ==   \* parameters are a0..a(k-1) in order of first appearance
 LabelsFromBasis == \A k \in 1..Len(labels) :
      \/ \E b \in 1..Len(BasisOf(shape[k])) : BasisOf(shape[k])[b] = labels[k]
      \/ (Renumber /\ shape[k] = 0 /\ IsParam(labels[k]))
+LinImpliesAtomLin == Complete => (LinClass(shape, labels) = "lin" => AtomLin(shape, labels).cls = "lin")
 EmitPosInRange == Complete => EmitPos(shape, labels) \in 0..(TreesOfShape(shape) - 1)
 
 EmitTree == Complete =>
    PrintT(ToJson([shape |-> shape, labels |-> labels, pos |-> EmitPos(shape, labels),
-                  infix |-> Infix(shape, labels), lin |-> LinClass(shape, labels),
+                  infix |-> Infix(shape, labels), lin |-> LinClass(shape, labels), alin |-> AtomLin(shape, labels),
                   code |-> Code(labels, ParamsOf(labels))]))
 =============================================================================
